@@ -265,12 +265,140 @@ func e6Case(seed uint64, n int, race bool) Case {
 	}}
 }
 
+// e6CtlCase: the same oracle on the real controller path (list/watch over the
+// fake server, clean watch, relists disabled): the published sequence is the
+// server's event log; the cache clause is checked by every consumer right after
+// each received event.
+func e6CtlCase(seed uint64, n int) Case {
+	rng0 := kit.NewRng(kit.Mix(seed, uint64(n)+6600))
+	total := 100 + rng0.Intn(200)
+	targets := []string{"", "controller|update event", "controller|distribute events", "publisher|distribute event", "watcher|session event"}
+	tgt := targets[rng0.Intn(len(targets))]
+	d := e6desc{seed, n, total, false, "controller-path:" + tgt}
+	id := fmt.Sprintf("E6/ctl/%d/%d", seed, n)
+	return Case{ID: id, Desc: d, Bubble: true, Run: func(r *Res) {
+		rng := rng0
+		plan := &kit.Plan{Seed: rng.U64(), PYield: 150, PSleep: 40, MaxSleep: 100 * time.Microsecond}
+		if tgt != "" {
+			plan.Targets = map[string]time.Duration{tgt: 80 * time.Microsecond}
+		}
+		core := kit.NewCore(plan)
+		srv := kit.NewPodServer(core)
+		u := smallUniverse()
+		for i := 0; i < 3; i++ {
+			u.mutate(rng, srv)
+		}
+		g, err := newCtlRig(core, srv, 10000*time.Hour, nil)
+		if err != nil {
+			r.Inc(err.Error())
+			return
+		}
+		t := newTree(g.ctl)
+		type leaf struct {
+			n  *node
+			at int // server log length when Subscribe returned
+		}
+		var leaves []leaf
+		add := func() {
+			var cands []*node
+			for _, x := range t.nodes {
+				if x.isController() && t.depth(x) < 3 {
+					cands = append(cands, x)
+				}
+			}
+			p := cands[rng.Intn(len(cands))]
+			kind := "sub"
+			if rng.Chance(35) && t.depth(p) < 2 {
+				kind = "clone"
+			}
+			nn, err := t.addChild(p, kind, nil, true)
+			if err != nil {
+				r.V("C05", "subscribe-error", "%v", err)
+				return
+			}
+			if kind == "sub" {
+				leaves = append(leaves, leaf{nn, len(srv.LogCopy())})
+			}
+		}
+		for i := 0; i < 4; i++ {
+			add()
+		}
+		if !waitCh(g.ctl.Ready(), virtBound) {
+			r.V("C05", "never-ready", "controller not ready")
+			return
+		}
+		g.barrier()
+		base := len(srv.LogCopy())
+		for i := range leaves {
+			leaves[i].at = base
+		}
+		sentN := 0
+		for sentN < total {
+			burst := 1 + rng.Intn(25)
+			for i := 0; i < burst && sentN < total; i++ {
+				u.mutate(rng, srv)
+				sentN++
+			}
+			g.barrier()
+			if rng.Chance(40) && len(t.nodes) < 20 {
+				add()
+			}
+		}
+		g.barrier()
+		var sent []evrec
+		for _, e := range srv.LogCopy() {
+			m, _ := e.Obj.(metav1Object)
+			typ := kcacheUpdate
+			switch e.Type {
+			case "ADDED":
+				typ = kcacheCreate
+			case "DELETED":
+				typ = kcacheDelete
+			}
+			sent = append(sent, evrec{Type: typ, Key: kit.Key(m), RV: m.GetResourceVersion()})
+		}
+		if core.Overruns() > 0 {
+			r.Inc("buffer overrun logged although at most 25 events were in flight")
+		}
+		for _, l := range leaves {
+			got := l.n.mir.events()
+			want := sent[l.at:]
+			r.Add("leaves", 1)
+			r.Add("controller-path-leaves", 1)
+			r.Add("events-received", int64(len(got)))
+			if len(got) != len(want) {
+				r.V("C05", "events-missing", "controller path: %s (depth %d) received %d events, the server emitted %d after it subscribed; tail: %s", l.n, t.depth(l.n), len(got), len(want), tailEvents(got, 5))
+				continue
+			}
+			for i := range got {
+				if got[i].RV != want[i].RV || got[i].Type != want[i].Type || got[i].Key != want[i].Key {
+					r.V("C05", "order-or-duplicate", "controller path: %s event %d is %s, the server's event at that position is %s", l.n, i, got[i], want[i])
+					break
+				}
+			}
+			l.n.mir.reportCacheClause(r)
+			if l.n.mir.preReady() > 0 {
+				r.V("C08", "event-before-ready", "%s received %d event(s) before Ready()", l.n, l.n.mir.preReady())
+			}
+		}
+		r.Add("published", int64(len(sent)-base))
+		r.Set("signatures", strconv.FormatUint(core.Signature(), 16))
+		g.shutdown(r, "C12")
+		r.Key(id)
+		r.Sample = map[string]interface{}{"desc": d, "nodes": len(t.nodes), "leaves": len(leaves), "server_events": len(sent) - base}
+	}}
+}
+
 func init() {
 	register("E6", func(tier string, seed uint64) []Case {
 		var cases []Case
 		n := tierPick(tier, 240, 5000)
 		for i := 0; i < n; i++ {
 			cases = append(cases, e6Case(seed, i, i%8 == 7))
+		}
+		m := tierPick(tier, 80, 1500)
+		for i := 0; i < m; i++ {
+			cases = append(cases, e6CtlCase(seed, i))
 		}
 		return cases
 	})
